@@ -7,7 +7,7 @@ use crate::props::c03;
 use crate::refimpl::{self, RProof, RefTree};
 use crate::rng::Rng;
 use crate::world::{snapshot, World};
-use hypercore::{Node, Proof};
+use hypercore::{Node, Proof, RequestUpgrade};
 use merkle_tree_stream::Node as NodeTrait;
 use serde_json::json;
 use std::collections::BTreeMap;
@@ -159,7 +159,10 @@ fn history_for_length(l: u64, r: &mut Rng) -> Vec<Op> {
 
 fn writer_case(ctx: &mut Ctx, ops: &[Op], key_seed: u64, every_op: bool) -> Result<u64, (usize, Fail)> {
     let world = World::new();
-    let mut sut = Sut::create(key_seed, world.clone(), CacheMode::None).map_err(|f| (0, f))?;
+    // the node cache must not change any value: a third of the histories each run with it off,
+    // default and tiny
+    let cache = [CacheMode::None, CacheMode::Default, CacheMode::Tiny][(key_seed % 3) as usize];
+    let mut sut = Sut::create(key_seed, world.clone(), cache).map_err(|f| (0, f))?;
     sut.plain_reopen_every = 2;
     let pk = sut.key.verifying_key().to_bytes();
     let mut reft = RefTree::default();
@@ -206,10 +209,67 @@ fn check_replica_nodes(ctx: &mut Ctx, world: &std::sync::Arc<std::sync::Mutex<Wo
     Ok(())
 }
 
+/// The leaf node of every block the replica holds is persisted (tree file or unflushed oplog
+/// entry): it arrived with the block and is what the block's bytes are authenticated by.
+fn check_replica_leaves(ctx: &mut Ctx, world: &std::sync::Arc<std::sync::Mutex<World>>, model: &crate::model::Model) -> Result<(), Fail> {
+    let rfiles = snapshot(world);
+    let mut rnodes = refimpl::read_tree_file(&rfiles[0]);
+    if let Some(o) = refimpl::read_oplog(&rfiles[3]) {
+        for e in &o.entries {
+            for (i, s, h) in &e.nodes {
+                rnodes.insert(*i, (*s, *h));
+            }
+        }
+    }
+    for i in 0..model.length() {
+        if model.has(i) {
+            if !rnodes.contains_key(&(2 * i)) {
+                return Err(ops::fail("replica-held-block-leaf-not-persisted", format!("the replica holds block {i} but tree node {} is neither in its tree store nor in an oplog entry", 2 * i)));
+            }
+            ctx.count("replica_held_leaves_found");
+        }
+    }
+    Ok(())
+}
+
+/// Nodes in proofs served by the replica itself are reference nodes too.
+fn check_replica_served(ctx: &mut Ctx, sess: &mut c03::Session, r: &mut Rng, reft: &RefTree) -> Result<(), Fail> {
+    let rl = sess.pair.replica.model.length();
+    let held: Vec<u64> = (0..rl).filter(|i| sess.pair.replica.model.has(*i)).collect();
+    if held.is_empty() {
+        return Ok(());
+    }
+    let i = *r.pick(&held);
+    let up = if r.chance(1, 2) { Some(RequestUpgrade { start: 0, length: rl }) } else { None };
+    let req = crate::repl::Request { block: Some(hypercore::RequestBlock { index: i, nodes: r.below(3) }), hash: None, seek: None, upgrade: up };
+    // (whether the replica can serve it at all is C03's business)
+    if let Ok(Ok(Some(p))) = crate::repl::create_proof(sess.pair.replica.core(), &req) {
+        let rp = to_rproof(&p);
+        let mut all: Vec<(u64, u64, [u8; 32])> = vec![];
+        if let Some(b) = &rp.block {
+            all.extend(b.2.iter().copied());
+        }
+        if let Some(u) = &rp.upgrade {
+            all.extend(u.2.iter().copied());
+            all.extend(u.3.iter().copied());
+        }
+        for (n, s, h) in &all {
+            match reft.nodes.get(n) {
+                Some((rs, rh)) if rs == s && rh == h => {}
+                _ => return Err(ops::fail("replica-served-node-differs", format!("node {n} (size {s}) in a proof for block {i} served by the replica is not the reference node"))),
+            }
+            ctx.count("replica_served_nodes_compared");
+        }
+    }
+    Ok(())
+}
+
 fn session_case(ctx: &mut Ctx, r: &mut Rng) -> Result<(), Fail> {
     // an honest C03 session, with every proof checked by the independent verifier
     let key_seed = r.next_u64();
-    let mut sess = c03::Session::new(key_seed, CacheMode::None)?;
+    let cache = *r.pick(&[CacheMode::None, CacheMode::Default, CacheMode::Tiny]);
+    ctx.count(&format!("session_cache:{cache:?}"));
+    let mut sess = c03::Session::new(key_seed, cache)?;
     let pk = sess.pair.writer.key.verifying_key().to_bytes();
     let mut known: BTreeMap<u64, (u64, [u8; 32])> = BTreeMap::new();
     let mut rlen = 0u64;
@@ -312,6 +372,17 @@ fn session_case(ctx: &mut Ctx, r: &mut Rng) -> Result<(), Fail> {
                     other => return Err(ops::fail("scenario:replica-refused", format!("{:?}", other.map(|x| x.map_err(|e| e.to_string()))))),
                 }
                 check_replica_nodes(ctx, &sess.pair.replica.world, &reft)?;
+                if r.chance(1, 3) {
+                    check_replica_served(ctx, &mut sess, r, &reft)?;
+                }
+                // the replica sometimes closes and reopens with unflushed entries; what it holds
+                // must stay backed by persisted reference nodes, also after the next flush
+                if r.chance(1, 4) {
+                    sess.pair.replica.reopen().map_err(|f| ops::fail(format!("scenario:{}", f.sig), f.detail))?;
+                    ctx.count("replica_reopened");
+                }
+                let m = sess.pair.replica.model.clone();
+                check_replica_leaves(ctx, &sess.pair.replica.world, &m)?;
             }
         }
     }
